@@ -333,7 +333,7 @@ const nameAlphabet = "ABCDEFGHIJKLMNOPQRSTUVWXYZabcdefghijklmnopqrstuvwxyz012345
 func genVarSpec(r *R) VarSpec {
 	if r.Chance(1, 4) {
 		p := Pick(r, predefinedVars())
-		return VarSpec{Sym: p.Sym}
+		return VarSpec{Sym: p.Sym, Rebuilt: r.Chance(1, 4)}
 	}
 	n := Pick(r, []int{1, 2, 3, 8, 16, 33, 64})
 	if r.Chance(1, 2) {
